@@ -1205,7 +1205,7 @@ class _Abstraction(object):
         k = t.get_id()
         hit = self.top.get(k)
         if hit is None:
-            s = z3.simplify(t, som=True)      # sum-of-monomials: (1+j)*w - j*w cancels to w before products are named
+            s = z3.simplify(t, som=True, som_blowup=10)      # sum-of-monomials: (1+j)*w - j*w cancels to w before products are named
             g = self.go(s)
             hit = (g, t, s, not g.eq(s))
             self.top[k] = hit
@@ -1328,7 +1328,7 @@ class _UFAbstraction(object):
         if hit is None:
             a = self.ites(t)
             nd = len(self.defs)
-            b = z3.simplify(a, som=True)
+            b = z3.simplify(a, som=True, som_blowup=10)
             c = self.prods_(b)
             hit = (c, t, a, b)
             self.top[k] = hit
@@ -1342,14 +1342,14 @@ class _UFAbstraction(object):
         while st[0] < len(self.defs) or self.pending:
             while st[0] < len(self.defs):
                 d = self.defs[st[0]]
-                done.append(self.prods_(z3.simplify(d, som=True)))
+                done.append(self.prods_(z3.simplify(d, som=True, som_blowup=10)))
                 self.keep.append(d)
                 st[0] += 1
             while self.pending:
                 t, o, (cnd, a, b) = self.pending.pop()
-                ca = self.prods_(z3.simplify(o * a, som=True))
-                cb = self.prods_(z3.simplify(o * b, som=True))
-                cc = self.prods_(z3.simplify(cnd, som=True))
+                ca = self.prods_(z3.simplify(o * a, som=True, som_blowup=10))
+                cb = self.prods_(z3.simplify(o * b, som=True, som_blowup=10))
+                cc = self.prods_(z3.simplify(cnd, som=True, som_blowup=10))
                 done += [z3.Implies(cc, t == ca), z3.Implies(z3.Not(cc), t == cb)]
                 self.keep += [ca, cb, cc]
         return out + list(done) + list(self.lemmas)
@@ -1363,7 +1363,16 @@ def _abstract_nl(terms, ab=None):
     return out + (list(ab.lemmas) if nl else []), nl
 
 
-def _forked(assertions, cpu_s, want_model=False, tactic=None):
+class _TransModel(object):
+    """model of a query that was solved in another z3 context: terms are translated there, values back"""
+    def __init__(self, model, ctx):
+        self.model, self.ctx = model, ctx
+
+    def eval(self, t, model_completion=False):
+        return self.model.eval(t.translate(self.ctx), model_completion=model_completion).translate(z3.main_ctx())
+
+
+def _forked(assertions, cpu_s, want_model=False, tactic=None, want_model_terms=False):
     """full (nonlinear) query in a forked child with a hard CPU limit: z3's own timeout is not honoured by every
     nonlinear routine, and a CPU limit keeps verdicts independent of machine load.  -> (result, model-json or None)"""
     import resource, select, json, signal
@@ -1373,20 +1382,37 @@ def _forked(assertions, cpu_s, want_model=False, tactic=None):
         try:
             os.close(r)
             resource.setrlimit(resource.RLIMIT_CPU, (int(cpu_s) + 1, int(cpu_s) + 2))
+            # the query is re-parsed into a FRESH z3 context: term numbering (on which the nonlinear solver's variable order and
+            # the argument order of normal forms depend) is then a function of the query text alone, not of everything
+            # the parent process has built before -- verdict and time do not depend on unrelated history
+            fresh = None
+            if True:
+                try:
+                    s0 = z3.Solver()
+                    for a in assertions:
+                        s0.add(a)
+                    fresh = z3.Context()
+                    parsed = z3.parse_smt2_string(s0.to_smt2(), ctx=fresh)
+                except z3.Z3Exception:
+                    fresh = None
             if tactic:
-                sl = z3.Then(*tactic).solver()
+                sl = z3.Then(*[z3.Tactic(t, ctx=fresh) for t in tactic], ctx=fresh).solver() if fresh is not None else z3.Then(*tactic).solver()
             else:
-                sl = z3.Solver()
+                sl = z3.Solver(ctx=fresh) if fresh is not None else z3.Solver()
             # no z3 timeout here: z3 implements it with a timer thread, and thread state does not survive fork();
             # the CPU rlimit (and the parent's wall-clock deadline) bound the query instead
-            for a in assertions:
-                sl.add(a)
+            if fresh is not None:
+                for a in parsed:
+                    sl.add(a)
+            else:
+                for a in assertions:
+                    sl.add(a)
             res = sl.check()
             out = {'r': str(res)}
             if res == z3.sat and want_model:
                 c = _CTX[0]
                 try:
-                    out['m'] = c.concretise(sl.model()) if c is not None else None
+                    out['m'] = c.concretise(_TransModel(sl.model(), fresh) if fresh is not None else sl.model()) if c is not None else None
                 except Exception as e:
                     out['m'] = None
             if res == z3.unknown:
@@ -1448,7 +1474,7 @@ def discharge(hyps, goal, timeout_ms, quick=False):
     try:
         gs = z3.simplify(goal)
         if z3.is_eq(gs) and z3.is_arith(gs.arg(0)):
-            dlt = z3.simplify(gs.arg(0) - gs.arg(1), som=True)
+            dlt = z3.simplify(gs.arg(0) - gs.arg(1), som=True, som_blowup=1000000)
             n0 = _num(dlt)
             if n0 is not None and n0 == 0:
                 return 'proved', None, ver + ' simplifier (polynomial normal form)', ''
